@@ -531,6 +531,11 @@ class Scanner:
                 if v[0] != 'region' or iv is None or iv[0] != 'int':
                     raise Unsupported('index projection on %r by %r' % (v[:1], iv))
                 cur = ('val', ('byte', v[1] + iv[1]))
+            elif isinstance(p, dict) and 'cidx' in p and not p.get('from_end'):
+                v = self.load(st, cur[1]) if cur[0] == 'loc' else cur[1]
+                if v[0] != 'region':
+                    raise Unsupported('constant index projection on %r' % (v[:1],))
+                cur = ('val', ('byte', v[1] + p['cidx']))
             elif isinstance(p, dict) and 'f' in p:
                 if cur[0] == 'loc':
                     loc = cur[1]
